@@ -125,7 +125,7 @@ def run(ctx: Ctx):
     sdel = [n for n in gs.nodes if n.kind == "stmt" and (
         any("_peer_waiting_answer" in ast.unparse(t) for t in n.deletes())
         or any(isinstance(c.func, ast.Attribute) and c.func.attr == "pop"
-               and "_peer_waiting_answer" in ast.unparse(c.func.value) for c in n.calls()))]
+               and "_peer_waiting_answer" in A.resolve_local_chain(sm.node, c.func.value) for c in n.calls()))]
     mparam = [a.arg for a in sm.node.args.args][2]
     if not sdel or (f"{mparam}.header.is_request", "truthy", None, False) not in must_facts(gs, ats, sdel[0]):
         ctx.fail(cons, sm.loc(), "send_message does not clean the pending record of an answer sent "
